@@ -638,9 +638,9 @@ Proof.
     + split; [assumption | split; congruence].
 Qed.
 
-Lemma fix_all_inv : forall SC F, ForestInv false F -> ForestInv false (fix_all SC F).
+Lemma fix_all_inv : forall F, ForestInv false F -> ForestInv false (fix_all F).
 Proof.
-  intros SC F H. unfold fix_all, ForestInv in *. rewrite Forall_forall in H. apply Forall_forall. intros x Hx.
+  intros F H. unfold fix_all, ForestInv in *. rewrite Forall_forall in H. apply Forall_forall. intros x Hx.
   apply in_map_iff in Hx. destruct Hx as [kv [E I]]. subst x. cbn [snd].
   apply (fix_choice_weak _ _ (H _ I)).
 Qed.
@@ -992,7 +992,7 @@ Proof.
   intros n_aug. induction fuel as [|f IH]; intros round F err P mods HF HP; cbn [rounds]; [split; assumption|].
   pose proof (augment_loop_inv SC (S n_aug) F err P mods O HF HP) as [A B].
   destruct (augment_loop SC (S n_aug) F err P mods O) as [[[[Fa erra] Pa] modsa] applied]. cbn [fst snd] in A, B.
-  pose proof (fix_all_inv SC Fa A) as C.
+  pose proof (fix_all_inv Fa A) as C.
   destruct modsa as [|m0 modsa']; [split; assumption|].
   destruct round as [|r]; [apply IH; assumption|].
   destruct applied; [split; assumption | apply IH; assumption].
@@ -1045,44 +1045,31 @@ Qed.
 End ProcessInv.
 
 (* ------------------------------------------------------------------ the choice clause *)
-Lemma HeightLe_depth : forall fuel e, HeightLe fuel e -> HeightLe (depth fuel e) e.
+(* the structural height (Model/Schema.v) is a height in the sense of HeightLe *)
+Lemma HeightLe_height_le : forall n e, height e <= n -> HeightLe n e.
 Proof.
-  induction fuel as [|f IH]; intros e H; inversion H as [n e' HD HR]; subst.
-  cbn [depth]. constructor.
-  - intros d E. rewrite E. specialize (HD d E). rewrite Forall_forall in *. intros x Hx.
-    apply (HeightLe_mono _ _ (IH _ (HD x Hx))).
-    assert (In (depth f (snd x)) (map (fun kv => depth f (snd kv)) d)) by (apply in_map_iff; exists x; auto).
-    clear - H0. revert H0. generalize (map (fun kv : str * entry => depth f (snd kv)) d) as l.
-    intros l Hl.
-    assert (G : forall l', depth f (snd x) <= fold_right Nat.max 0 (l ++ l')).
-    { induction l as [|a l IHl]; [destruct Hl|]. intros l'. cbn [app fold_right]. destruct Hl as [->|Hl]; [lia|].
-      specialize (IHl Hl l'). lia. }
-    apply G.
-  - intros i o E. rewrite E. destruct (HR i o E) as [A B].
-    assert (G : forall (l l' : list nat) v, In v l' -> v <= fold_right Nat.max 0 (l ++ l')).
-    { induction l as [|a l IHl]; intros l' v Hv; cbn [app fold_right].
-      - induction l' as [|b l' IHl']; [destruct Hv|]. cbn [fold_right]. destruct Hv as [->|Hv]; [lia|]. specialize (IHl' Hv). lia.
-      - specialize (IHl l' v Hv). lia. }
-    split; intros x Ex; subst.
-    + apply (HeightLe_mono _ _ (IH _ (A x eq_refl))). apply G. apply in_or_app. left. left. reflexivity.
-    + apply (HeightLe_mono _ _ (IH _ (B x eq_refl))). apply G. apply in_or_app. right. destruct i; left; reflexivity.
+  induction n as [|n IH]; intros e H; [pose proof (height_pos e); lia|].
+  constructor.
+  - intros d E. apply Forall_forall. intros x Hx. apply IH.
+    pose proof (height_child e d x E Hx). lia.
+  - intros i o E. split; intros x Ex; subst; apply IH.
+    + pose proof (height_input e x o E). lia.
+    + pose proof (height_output e i x E). lia.
 Qed.
 
-Lemma fold_max_ge : forall (l : list nat) v, In v l -> v <= fold_right Nat.max 0 l.
-Proof.
-  induction l as [|a l IH]; intros v Hv; [destruct Hv|]. cbn [fold_right].
-  destruct Hv as [->|Hv]; [lia|]. specialize (IH v Hv). lia.
-Qed.
+Lemma HeightLe_height : forall e, HeightLe (height e) e.
+Proof. intros e. apply HeightLe_height_le. apply Nat.le_refl. Qed.
 
-Lemma fix_all_strict : forall SC F, ForestInv false F -> ForestHeight SC F -> ForestInv true (fix_all SC F).
+(* FixChoice on all trees, with the fuel Process gives it, establishes the choice clause *)
+Lemma fix_all_strict : forall F, ForestInv false F -> ForestInv true (fix_all F).
 Proof.
-  intros SC F HI HH. unfold fix_all, ForestInv, ForestHeight in *.
-  rewrite Forall_forall in HI, HH. apply Forall_forall. intros x Hx.
+  intros F HI. unfold fix_all, ForestInv in *.
+  rewrite Forall_forall in HI. apply Forall_forall. intros x Hx.
   apply in_map_iff in Hx. destruct Hx as [kv [E I]]. subst x. cbn [snd].
-  apply (fix_choice_strict _ (depth (entry_fuel SC) (snd kv))).
-  - apply HeightLe_depth. apply (HH _ I).
-  - assert (depth (entry_fuel SC) (snd kv) <= fold_right Nat.max 0 (map (fun kv0 => depth (entry_fuel SC) (snd kv0)) F)).
-    { apply fold_max_ge. apply in_map_iff. exists kv. auto. }
+  apply (fix_choice_strict _ (height (snd kv))).
+  - apply HeightLe_height.
+  - assert (height (snd kv) <= fold_right Nat.max 0 (map (fun kv0 => height (snd kv0)) F)).
+    { apply fold_max_member. apply in_map_iff. exists kv. auto. }
     lia.
   - apply (HI _ I).
 Qed.
@@ -1094,28 +1081,24 @@ Variable order : list str.
 
 Lemma rounds_strict : forall n_aug fuel round F err P mods,
   ForestInv false F -> PendOk P ->
-  Forall (ForestHeight SC) (rounds_pre SC n_aug fuel round F err P mods) ->
   (fuel = 0 -> ForestInv true F) ->
   ForestInv true (fst (fst (fst (rounds SC n_aug fuel round F err P mods)))).
 Proof.
-  intros n_aug. induction fuel as [|f IH]; intros round F err P mods HF HP HT H0; cbn [rounds]; [auto|].
-  cbn [rounds_pre] in HT.
+  intros n_aug. induction fuel as [|f IH]; intros round F err P mods HF HP H0; cbn [rounds]; [auto|].
   pose proof (augment_loop_inv SC (S n_aug) F err P mods O HF HP) as [A B].
   destruct (augment_loop SC (S n_aug) F err P mods O) as [[[[Fa erra] Pa] modsa] applied]. cbn [fst snd] in A, B.
-  inversion HT as [|x l HFa HT']; subst.
-  pose proof (fix_all_strict SC Fa A HFa) as C.
-  pose proof (fix_all_inv SC Fa A) as C'.
+  pose proof (fix_all_strict Fa A) as C.
+  pose proof (fix_all_inv Fa A) as C'.
   destruct modsa as [|m0 modsa']; [exact C|].
   destruct round as [|r]; [apply IH; auto|].
   destruct applied; [exact C | apply IH; auto].
 Qed.
 
-Lemma stage_F2_strict : heights_ok SC ic order -> ForestInv true (stage_F2 SC ic order).
+Lemma stage_F2_strict : ForestInv true (stage_F2 SC ic order).
 Proof.
-  intro H. unfold stage_F2, stage_rounds. apply rounds_strict.
+  unfold stage_F2, stage_rounds. apply rounds_strict.
   - apply stage_F0_inv.
   - apply stage_P0_ok.
-  - exact H.
   - discriminate.
 Qed.
 
@@ -1175,40 +1158,20 @@ Proof.
   destruct (augment_module SC F err _ true) as [[[F' err'] n] un]. exact ID.
 Qed.
 
-(* T1 with the choice clause, under the two explicit side conditions *)
+(* T1 with the choice clause, under the one explicit side condition that the reporting pass applies nothing
+   (Proofs/TreeInvFull.v discharges it for module sets with distinct names and orders that visit every module) *)
 Theorem Process_TreeInv_full : forall F,
   Process SC ic ins order = ROk F ->
-  final_applied SC ic order = 0 -> heights_ok SC ic order -> ForestInv true F.
+  final_applied SC ic order = 0 -> ForestInv true F.
 Proof.
-  intros F H HA HH. rewrite Process_stages in H.
+  intros F H HA. rewrite Process_stages in H.
   destruct (includes_fail SC); [discriminate|]. destruct (build_fail SC ic); [discriminate|].
   destruct (stage_err4 SC ic ins order); [discriminate|]. inversion H; subst.
   unfold stage_F4, stage_dev. apply dev_fold_inv. unfold stage_F3, stage_final.
-  apply (final_fold_idle true _ _ 0); [apply stage_F2_strict; assumption | exact HA].
+  apply (final_fold_idle true _ _ 0); [apply stage_F2_strict | exact HA].
 Qed.
 
 End Strict.
-
-Lemma height_ok_sound : forall n e, height_ok n e = true -> HeightLe n e.
-Proof.
-  induction n as [|n IH]; intros e H; cbn [height_ok] in H; [discriminate|].
-  apply andb_true_iff in H. destruct H as [H1 H2]. constructor.
-  - intros d E. rewrite E in H1. rewrite forallb_forall in H1. apply Forall_forall. intros x Hx. apply IH. apply H1. assumption.
-  - intros i o E. rewrite E in H2. apply andb_true_iff in H2. destruct H2 as [A B].
-    split; intros x Ex; subst; apply IH; assumption.
-Qed.
-
-Lemma heights_okb_sound : forall SC ic order, heights_okb SC ic order = true -> heights_ok SC ic order.
-Proof.
-  intros SC ic order H. unfold heights_okb in H. unfold heights_ok, ForestHeight.
-  rewrite forallb_forall in H. apply Forall_forall. intros F HF. specialize (H F HF).
-  rewrite forallb_forall in H. apply Forall_forall. intros kv Hkv. apply height_ok_sound. apply H. assumption.
-Qed.
-
-Theorem Process_TreeInv_full_b : forall SC ic ins order F,
-  Process SC ic ins order = ROk F ->
-  final_applied SC ic order = 0 -> heights_okb SC ic order = true -> ForestInv true F.
-Proof. intros. eapply Process_TreeInv_full; eauto. apply heights_okb_sound. assumption. Qed.
 
 (* ------------------------------------------------------------------ T2: a clean result means no error at any stage *)
 Definition pend_of (P : pendings) (mn : str) : list aug := match lookup mn P with Some l => l | None => [] end.
